@@ -1,7 +1,11 @@
 #!/bin/bash
 # usage: seedtest.sh <patch.diff> <prop> [<prop>...]   — apply a seeded change to /repo, run quick checks, undo
+# SEED_REPO=<scratch worktree of /repo's HEAD>: run against that tree instead (P2V_REPO / P2V_TARGET point run.sh at it),
+# so that seeded changes can be tried while long checks of the real /repo are running.
 patch="$1"; shift
-cd /repo || exit 2
+REPO="${SEED_REPO:-/repo}"
+if [ -n "${SEED_REPO:-}" ]; then export P2V_REPO="$SEED_REPO" P2V_TARGET="${SEED_TARGET:-/tmp/sr/target}"; fi
+cd "$REPO" || exit 2
 if ! git diff --quiet; then echo "repo dirty"; exit 2; fi
 if ! git apply "$patch" 2>/tmp/apply.err; then
   if ! git apply --3way "$patch" 2>>/tmp/apply.err; then echo "PATCH DOES NOT APPLY: $(head -3 /tmp/apply.err)"; git reset -q --hard HEAD; exit 3; fi
@@ -16,4 +20,4 @@ for p in "$@"; do
 done
 git checkout -- .
 # restore evidence written against the mutated tree
-cd /verif && git checkout -- evidence 2>/dev/null
+[ -z "${SEED_REPO:-}" ] && cd /verif && git checkout -- evidence 2>/dev/null
